@@ -707,6 +707,11 @@ func (d *drv) crashCreate(i int, s *step, nextDir func() string) *rt.Result {
 		nn = append(nn, d.keys[k].name)
 		tt = append(tt, d.keys[k].tags)
 	}
+	// The create is "in flight": in the real system the compaction trigger comes after the segment fsync, so a
+	// compaction can never have indexed entries that are still torn. Keep the background compactor off for this call.
+	for _, p := range d.f.Partitions() {
+		p.CompactThreshold = 0
+	}
 	infl, err := d.f.CreateSeriesListIfNotExists(nn, tt)
 	if err != nil {
 		r := rt.Fail(i, "create failed: "+err.Error(), err.Error(), nil)
@@ -740,7 +745,7 @@ func (d *drv) crashCreate(i int, s *step, nextDir func() string) *rt.Result {
 	}
 	// entry boundaries of the in-flight regions
 	for _, rg := range regs {
-		data := t[rg.rel].data
+		data := t.modify(rg.rel, int(rg.to)) // full length: trailing zero bytes of an entry are data too
 		for pos := rg.from; pos < rg.to; {
 			if pos >= int64(len(data)) {
 				r := rt.Infra("in-flight region beyond file data")
@@ -795,17 +800,21 @@ func (d *drv) crashCreate(i int, s *step, nextDir func() string) *rt.Result {
 		if n >= len(rg.entries) {
 			return 0
 		}
-		l := rg.entries[n][1] - rg.entries[n][0]
+		eb := t[rg.rel].data[rg.entries[n][0]:rg.entries[n][1]]
+		lastNZ := int64(len(eb)) - 1 // a torn entry must differ from the whole one: the cut drops a non-zero byte
+		for lastNZ > 10 && eb[lastNZ] == 0 {
+			lastNZ--
+		}
 		switch s.Tear {
 		case "id7":
 			return 8
 		case "id8":
 			return 9
 		case "key":
-			if (c.Conc/10)%2 == 0 {
-				return l - 1
+			if (c.Conc/10)%2 == 0 || lastNZ <= 10 {
+				return lastNZ
 			}
-			return 10 + d.rng.Int63n(l-10)
+			return 10 + d.rng.Int63n(lastNZ-9)
 		}
 		return 0
 	}
